@@ -227,7 +227,7 @@ func genC32Plans(rt *rapid.T, w *c32World) []*c32Plan {
 			faults := map[string]bool{}
 			nFaults := rapid.SampledFrom([]int{0, 0, 0, 1, 1, 1, 1, 2}).Draw(rt, "nFaults")
 			for f := 0; f < nFaults; f++ {
-				faults[rapid.SampledFrom([]string{"early", "late", "under-min", "over", "unsupported-chain", "app-not-on-chain", "ghost-app", "appU", "stranger", "victim", "0021"}).Draw(rt, "fault")] = true
+				faults[rapid.SampledFrom([]string{"early", "late", "under-min", "over", "unsupported-chain", "app-not-on-chain", "ghost-app", "appU", "stranger", "victim", "0021", "phantom-session"}).Draw(rt, "fault")] = true
 			}
 			switch {
 			case faults["ghost-app"]:
@@ -255,6 +255,11 @@ func genC32Plans(rt *rapid.T, w *c32World) []*c32Plan {
 			case faults["victim"] && w.victim >= 0:
 				p.claimant = w.victim
 			}
+			if faults["phantom-session"] {
+				// a "session height" that is not the first block of a session
+				p.sbh = sbh + int64(rapid.IntRange(1, int(w.bps)-1).Draw(rt, "phantomOffset"))
+			}
+			sbh := p.sbh
 			ph, sessEnd := w.ph(sbh), sbh+w.bps-1
 			a := w.genAllowance(p.app)
 			size := func() int {
@@ -435,6 +440,9 @@ func (r *c32Run) judgeClaim(h int64, msg *pocketTypes.MsgClaim) (reasons []strin
 	w := r.w
 	sbh := msg.SessionHeader.SessionBlockHeight
 	sessEnd, ph := sbh+w.bps-1, w.ph(sbh)
+	if (sbh-1)%w.bps != 0 {
+		reasons = append(reasons, "not-a-session-start")
+	}
 	if msg.TotalProofs < 5 {
 		reasons = append(reasons, "under-5")
 	}
@@ -765,7 +773,16 @@ func (r *c32Run) deliverClaim(h int64, sb *c32Sub) {
 	if res.Code == 0 {
 		c.Label("claim-accepted")
 		if len(reasons) > 0 {
-			c.Violation("C32/claim/accepted-"+reasons[0], "%s: accepted although the model says %v", sb.desc, reasons)
+			// the signature names the first reason other than the (known) missing session-start check, so that
+			// that finding never hides another one
+			why := reasons[0]
+			for _, x := range reasons {
+				if x != "not-a-session-start" {
+					why = x
+					break
+				}
+			}
+			c.Violation("C32/claim/accepted-"+why, "%s: accepted although the model says %v", sb.desc, reasons)
 		}
 		if !found || !got.MerkleRoot.Equal(msg.MerkleRoot) || got.TotalProofs != msg.TotalProofs {
 			c.Violation("C32/claim/accepted-but-not-stored", "%s: claim tx code 0 but the store holds found=%v total=%d", sb.desc, found, got.TotalProofs)
@@ -839,6 +856,7 @@ func (r *c32Run) deliverProof(h int64, sb *c32Sub, feeCollector string, validSee
 			r.rejectedHdr[rf.Header(w.apps[p.app].PublicKey(), p.chain, p.sbh).HashString()] = true
 		}
 		if expectValid && weightOne {
+			dbgDump(r, node)
 			c.Violation("C32/proof/valid-proof-not-rewarded", "%s: the required leaf of a live, mature, unexpired claim was not rewarded (%s)", sb.desc, res.Log)
 		}
 		if expectValid && !weightOne {
